@@ -17,6 +17,10 @@ from concurrent.futures import Future
 from harness import core, par, tlc
 
 warnings.simplefilter("ignore", RuntimeWarning)
+# a second failing member of a gather resolves an already resolved future inside a done-callback: concurrent.futures logs and
+# swallows the InvalidStateError (modelled by spec/FutureCombinators.tla, variable `swallowed`); the log line is noise here
+import logging
+logging.getLogger("concurrent.futures").setLevel(logging.CRITICAL)
 
 
 class E1(Exception):
